@@ -557,7 +557,9 @@ func (c *hxConn) Read(p []byte) (int, error) {
 				step = s.cmds[len(s.cmds)-1].verb
 			}
 			svAssert(false, "C17 blocking read with no deadline armed ("+s.phase+": waiting for the reply to "+step+")")
-			svStop()
+			// the violation is recorded; let the call return (as if a deadline had
+			// fired) so that the run - and a native replay - terminates
+			return 0, hxTimeoutErr{}
 		}
 		s.blockedRead = true
 		return 0, io.EOF
